@@ -149,6 +149,9 @@ func main() {
 	os.Setenv("GOFLAGS", "-mod=mod")
 	os.Setenv("GOPROXY", "off")
 	os.Setenv("GOTOOLCHAIN", "local")
+	if d := os.Getenv("GOSYM_HARNESS_DIR"); d != "" {
+		harnessDir = d // development only: harness files from a scratch directory
+	}
 	if len(os.Args) < 2 {
 		fmt.Fprintln(os.Stderr, "usage: gosym <fixtures|check> ...")
 		os.Exit(2)
